@@ -26,7 +26,7 @@ pub const MAXV: usize = 10;
 pub fn clause_of(op: &Op) -> Vec<(usize, bool)> {
     op.a.iter()
         .filter(|l| **l != 0)
-        .map(|l| ((l.unsigned_abs() as usize - 1) % 8192, *l > 0))
+        .map(|l| ((l.unsigned_abs() as usize - 1) % (1 << 20), *l > 0))
         .collect()
 }
 
@@ -185,6 +185,60 @@ pub fn is_taut(c: &[(usize, bool)]) -> bool {
     c.iter().any(|(v, p)| c.contains(&(*v, !*p)))
 }
 
+/// "Counter period" scenario: a formula made of two blocks that share no variable. A few decisions touch block B,
+/// then a *quiet phase* of exactly M decide/pop pairs works on block A only, then block B is touched again. M is
+/// taken next to the periods of narrow counters (2^8, 2^16), minus a small offset so that some pair of touches of
+/// B is exactly one period apart: whatever the solver stamps, counts or caches per call and never looks at during
+/// the quiet phase comes back into play precisely when a u8 / u16 counter has gone round.
+fn gen_period(run_seed: u64, target: &str, c: &mut Rng, o: &mut Rng) -> Plan {
+    let mut cfg = Cfg::new();
+    let (na, nb) = (2 + c.below(3), 3 + c.below(3));
+    let nv = na + nb;
+    cfg.insert("nv".into(), nv as i64);
+    cfg.insert("big".into(), 0);
+    cfg.insert("chain".into(), 0);
+    cfg.insert("arena".into(), 1);
+    cfg.insert("period".into(), 1);
+    let mut ops = Vec::new();
+    let block = |o: &mut Rng, lo: u64, n: u64, ops: &mut Vec<Op>| {
+        for _ in 0..(2 + o.below(4)) {
+            let mut a = [0i64; 4];
+            for slot in a.iter_mut().take(2 + o.below(2) as usize) {
+                let x = (lo + o.below(n)) as i64 + 1;
+                *slot = if o.bool() { x } else { -x };
+            }
+            ops.push(Op { c: 0, k: K_CLAUSE, a });
+        }
+    };
+    block(o, 0, na, &mut ops);
+    block(o, na, nb, &mut ops);
+    let touch_b = |o: &mut Rng, ops: &mut Vec<Op>, k: u64| {
+        for _ in 0..k {
+            ops.push(Op { c: 0, k: K_DECIDE, a: [(na + o.below(nb)) as i64, o.below(2) as i64, 0, 0] });
+            if o.below(3) == 0 {
+                ops.push(Op { c: 0, k: K_DECIDE, a: [(na + o.below(nb)) as i64, o.below(2) as i64, 0, 0] });
+                ops.push(Op { c: 0, k: K_POP, a: [0; 4] });
+            }
+            ops.push(Op { c: 0, k: K_POP, a: [0; 4] });
+        }
+    };
+    let (k1, k2) = (1 + o.below(4), 2 + o.below(5));
+    touch_b(o, &mut ops, k1);
+    let period: u64 = if c.below(4) == 0 { 256 } else { 65_536 };
+    let m = match c.below(8) {
+        0 => period + 1,
+        1 => period,
+        _ => period - 1 - c.below(2 * (k1 + k2) + 2),
+    };
+    cfg.insert("quiet_phase".into(), m as i64);
+    for _ in 0..m {
+        ops.push(Op { c: 0, k: K_DECIDE, a: [o.below(na) as i64, o.below(2) as i64, 0, 0] });
+        ops.push(Op { c: 0, k: K_POP, a: [0; 4] });
+    }
+    touch_b(o, &mut ops, k2);
+    Plan { world: "sat".into(), target: target.into(), seed: run_seed, cfg, ops, faults: Faults::Random { seed: mix(run_seed, 80), rates: [0; NUM_SITES] } }
+}
+
 impl World for SatWorld {
     fn name(&self) -> &'static str {
         "sat"
@@ -198,6 +252,9 @@ impl World for SatWorld {
         let mut c = Rng::stream(run_seed, "config");
         let mut o = Rng::stream(run_seed, "ops");
         let mut s = Rng::stream(run_seed, "schedule");
+        if c.below(800) == 0 {
+            return gen_period(run_seed, target, &mut c, &mut o);
+        }
         // mostly up to 6 variables / 8 clauses; one run in four goes up to 10 variables / 14 clauses
         let wide = c.below(4) == 0;
         // one run in six is a large instance (11-60 variables, up to 300 clauses) judged by a DPLL oracle
@@ -242,7 +299,31 @@ impl World for SatWorld {
                 v.push(Op { c: 0, k: if j == 0 { K_CLAUSE } else { K_CLAUSE_EXT }, a });
             }
         };
-        let mut ops = if huge {
+        // one huge formula in six mentions every variable exactly once (pairwise disjoint clauses): deciding a
+        // literal false then removes exactly one literal occurrence, so the sweep compares the hash weights of all
+        // occurrences with each other
+        let disjoint = huge && c.below(6) == 0;
+        let nv = if disjoint { 85_000 + c.below(15_000) } else { nv };
+        if disjoint {
+            cfg.insert("nv".into(), nv as i64);
+            cfg.insert("disjoint".into(), 1);
+        }
+        let mut ops = if disjoint {
+            let mut v = Vec::new();
+            let mut vars: Vec<u64> = (0..nv).collect();
+            o.shuffle(&mut vars);
+            let mut i = 0usize;
+            while i + 3 <= vars.len() {
+                let sz = if o.below(10) == 0 { 2 } else { 3 };
+                let mut a = [0i64; 4];
+                for (slot, x) in a.iter_mut().zip(vars[i..i + sz].iter()) {
+                    *slot = if o.bool() { *x as i64 + 1 } else { -(*x as i64 + 1) };
+                }
+                i += sz;
+                v.push(Op { c: 0, k: K_CLAUSE, a });
+            }
+            v
+        } else if huge {
             let mut v = Vec::new();
             for _ in 0..(29_000 + c.below(18_000)) {
                 let mut a = [0i64; 4];
@@ -389,7 +470,7 @@ impl World for SatWorld {
         ctx.cur_prop = "C09";
         let big = plan.get_or("big", 0) != 0;
         let huge = plan.get_or("huge", 0) != 0;
-        let clauses_in: Vec<Vec<(usize, bool)>> = clauses_of_plan(&plan.ops, if huge { 65536 } else if big { 8192 } else { MAXV });
+        let clauses_in: Vec<Vec<(usize, bool)>> = clauses_of_plan(&plan.ops, if huge { 1 << 17 } else if big { 8192 } else { MAXV });
         let lits: Vec<Vec<Literal>> = clauses_in
             .iter()
             .map(|c| c.iter().map(|(v, p)| Literal::new(VarLabel::new(*v as u64), *p)).collect())
@@ -695,11 +776,19 @@ impl World for SatWorld {
                     let mut seen: BTreeMap<u128, (usize, bool, u128)> = BTreeMap::new();
                     seen.insert(solver.cur_hash(), (usize::MAX, false, key_of(&[])));
                     let mut visited = 0u64;
+                    // (the sweep's own allocations -- one saved solver state per decision -- go to the system allocator
+                    // and are freed again: hundreds of thousands of them would not fit a bump arena)
+                    let mut sweep = |ctx: &mut Ctx, solver: &mut SATSolver| -> R {
                     for v in 0..nv {
                         if root[v].is_some() {
                             continue;
                         }
+                        // both polarities for every eighth variable, one (fixed by the variable) for the others
+                        let one = mix(0x5EE9, v as u64) & 1 == 1;
                         for b in [false, true] {
+                            if v % 8 != 0 && b != one {
+                                continue;
+                            }
                             if matches!(solver.decide(Literal::new(VarLabel::new(v as u64), b)), DecisionResult::UNSAT) {
                                 continue;
                             }
@@ -720,8 +809,8 @@ impl World for SatWorld {
                                         }
                                         r
                                     };
-                                    let r0 = exact(&mut solver, if v0 == usize::MAX { None } else { Some((v0, b0)) });
-                                    let r1 = exact(&mut solver, Some((v, b)));
+                                    let r0 = exact(&mut *solver, if v0 == usize::MAX { None } else { Some((v0, b0)) });
+                                    let r1 = exact(&mut *solver, Some((v, b)));
                                     ctx.check("C09", "sat-equal-hash-different-residual", r0 == r1, || {
                                         format!(
                                             "the state after the single decision x{v}={b} and the state after {} have the same hash {h} but different residual formulas ({} and {} clauses left; {} variables, {} literal occurrences)",
@@ -738,6 +827,9 @@ impl World for SatWorld {
                             }
                         }
                     }
+                    Ok(())
+                    };
+                    crate::alloc::with_system(|| sweep(ctx, &mut solver))?;
                     ctx.evals += visited;
                     ctx.count("single-decision-states-swept", visited);
                     ctx.ev(43, &[visited, seen.len() as u64]);
